@@ -22,7 +22,7 @@ LEVEL = 'other'
 TRUSTED = TRUSTED_COMMON + ['contracts of rank_chop / SVD / QR (shapes only are used here)']
 ASSUMPTIONS = ['reshape: source and target are groupings of one ordered list of <=4 symbolic factors (each >= 2) with singleton modes inserted at the front, middle or end; '
                'orders d_in, d_out <= 3 quick / <= 4 thorough; non-aligned reshapes are covered by the bounded stand-in only',
-               'permute: every permutation of d<=3 (quick) / d<=4 (thorough) modes, tensors and operators (d<=3)',
+               'permute: every permutation of d<=3 (quick) / d<=4 (thorough) modes, tensors and operators (d<=3); thresholds relative to the local norm at every swap; right-orthogonality of the cores outside the super-core only at the FIRST swap (later swaps act on rewritten cores: no invariant of the real code to state)',
                'QTT: concrete power-of-two mode sizes (2,4,8), symbolic ranks',
                'accuracy clause: bounded run-time contracts only (K = 4(1+sqrt(r_max)) eps ||x||), never counted as proved']
 EXPLANATION = ('structure and consumption obligations discharged by the ttvc engine (proof); accuracy by the bounded run-time stand-in. '
